@@ -354,7 +354,28 @@ def rule_silent(ctx):
         yield ob(R, f2, "%s:validates" % q, len(v) == 1 and not symeval.pc_conds(v[0].pc), "validate() is called unconditionally")
 
 
+def rule_safedb(ctx):
+    """_safe_db(num, den) returns +inf exactly when den == 0 and 10*log10(num/den) otherwise: the zero test is exact,
+    so multiplying estimate and reference energies by one constant never flips a finite ratio to inf."""
+    R = "C19.SAFEDB"
+    f = ctx.program.func("separation._safe_db", R)
+    s = ctx.S.get(f.qual)
+    lits = [r for r in s.returns if r.term.op in ("attr", "const", "glob", "ext") or tm.show(r.term, 2) in ("np.inf", "inf")]
+    main = [r for r in s.returns if r not in lits]
+    need(len(main) == 1 and len(lits) == 1, R, "_safe_db: (inf, ratio) returns not found")
+    conds = list(symeval.pc_conds(lits[0].pc))
+    exact = len(conds) == 1 and conds[0][1] and conds[0][0].op == "cmp" and conds[0][0].a[0] == "==" and any(tm.is_const(z, 0) for z in conds[0][0].a[1:]) and any(z.op == "param" and z.a[0] == "den" for z in conds[0][0].a[1:])
+    yield ob(R, f, "separation._safe_db:exact-zero-test", exact, "inf is returned iff den == 0 (exact)" if exact else "inf is returned under %s: a tolerance-based zero test makes quiet but non-silent signals score inf" % "; ".join(tm.show(c, 3) for c, _ in conds), node=lits[0].node)
+    from . import c01
+
+    for o in c01.rule_guardtable(ctx):
+        if o.construct.startswith("separation._safe_db"):
+            o.rule = R
+            yield o
+
+
 RULES = [
+    ("C19.SAFEDB", 2, rule_safedb),
     ("C19.LINEAR", 9, rule_linear),
     ("C19.ARITY", 14, rule_arity),
     ("C19.NANFILL", 30, rule_nanfill),
